@@ -563,6 +563,16 @@ func (v *verifier) processSignature(ctx context.Context, sigBlob []byte, envelop
 			return processPluginResponse(capabilitiesToVerify, response, outcome)
 		}
 	}
+
+	if installedPlugin == nil {
+		// the signature names no verification plugin: a critical extended
+		// attribute that nothing processes must not be accepted
+		for _, attr := range outcome.EnvelopeContent.SignerInfo.SignedAttributes.ExtendedAttributes {
+			if attr.Critical {
+				return fmt.Errorf("extended critical attribute %q was not processed (all extended critical attributes must be processed by a verification plugin)", attr.Key)
+			}
+		}
+	}
 	return nil
 }
 
